@@ -364,6 +364,34 @@ def kind_mix_asts(rng):
     return out
 
 
+# ---------------------------------------------------------------- whole numbers that a double cannot hold
+
+def big_int_asts(rng):
+    """abstract programs holding whole numbers beyond what a double represents exactly (ids, time stamps, int64 / uint64 missing-value markers, long runs of digits):
+    around every power of two from 2**53 to 2**70 and 2**100 / 2**1024, 10**n + 7, runs of 17 to 1000 digits; each as written, negative, with a `+`, zero-padded; as an
+    argument, a list item (also nested, next to decimals of the same size), a tuple value.  An integer is an integer with every digit, however long it is."""
+    nums = [2 ** 53 - 1, 2 ** 53, 2 ** 53 + 1, 2 ** 63 - 1, 2 ** 63, 2 ** 64 - 1, 2 ** 64 + 1, 10 ** 30 + 7, 20240930123456789, 99999999999999999999, 2 ** 100 + 1, 2 ** 1024 - 1, 2 ** 1024 + 1]
+    nums += [2 ** k + rng.choice([-1, 1, 3]) for k in range(54, 71)] + [10 ** n + 7 for n in (16, 17, 19, 22, 40, 308, 309)]
+    nums += [int("".join(rng.choice("0123456789") for _ in range(n - 1)) + rng.choice("13579")) + 10 ** (n - 1) for n in (17, 18, 20, 25, 40, 100, 310, 400, 1000)]
+    vals = []
+    for k, n in enumerate(nums):
+        vals += [Val("int", n), Val("int", -n), Val("int", n, ["+%d" % n, "000%d" % n, "-0%d" % n][k % 3]) if k % 3 < 2 else Val("int", -n, "-0%d" % n)]
+    out = []
+    for k, v in enumerate(vals):
+        w, x = vals[(k * 7 + 3) % len(vals)], vals[(k * 5 + 1) % len(vals)]
+        near = Val("float", float(v.v), float_text(float(v.v))) if abs(v.v) < 10 ** 300 else Val("float", 1.5)
+        shape = k % 4
+        if shape == 0:
+            out.append([("A%d" % k, "Cmd", [("MissingVal", v), ("Other", w)])])
+        elif shape == 1:
+            out.append([("L%d" % k, "Cmd", [("Ids", Val("list", [v, near, w, Val("int", 1), x]))])])
+        elif shape == 2:
+            out.append([("T%d" % k, "Cmd", [("Metadata", Val("dict", [("Serial", v), ("Stamp", w), ("Scale", near)]))])])
+        else:
+            out.append([("N%d" % k, "Cmd", [("P", Val("list", [Val("list", [v]), Val("list", [Val("list", [w, v]), x])])), ("Q", v)]), ("After%d" % k, "Cmd", [("P", x)])])
+    return out
+
+
 def exact(ast):
     """the program with every number's kind and exact value (sign of zero included): what `parsing.exact_parse` has to return for any rendering of it"""
     def val(v):
